@@ -6,19 +6,24 @@ from vlib import core
 
 META = {
     "level": "model_checking",
-    "level_text": "M2Layout.tla models the writers of wow-m2 (M2Model::write, SkinG::write, AnimFile::write) as one running-offset state machine "
-                  "(WriteHeader, WriteEmptyRun, WriteSection(s), RelocateTail(s) for key-frame blobs / texture names / embedded views, Finish, Parse, Rewrite, "
-                  "Convert(v)) with element sizes written as field sums and, separately, the writer's cursor constants (animation 32|52, bone 108|112|88, track 28|20, "
-                  "header 324|304). Stage A: TLC checks exhaustively, for every subset of the populated sections x every version x the three file kinds, that the "
-                  "cursor equals the bytes emitted, the announced (count,offset) regions are inside the file, pairwise disjoint and equal what was emitted, "
-                  "parse(write(x)) = x, the rewrite is byte-stable, convert(v,v) = id and convert(a,b) keeps the representable sections. Stage B: TLC enumerates the "
-                  "shape space (cardinality {0,1,3} per section dimension, key-frame data on/off, extreme floats, long names, 5 versions, all conversion targets; skin "
-                  "old/new layouts; anim modern/legacy) as a reduced product + seeded draws and emits with each shape the header positions and element sizes. "
-                  "Stage C replays every shape on the real crate through its public types. Stage D: TLC validates the recorded Write/Arrays/Parse/Rewrite/Convert "
-                  "events: per-section token equality, byte equality, Representable(a,b), and the layout found by an independent array walker.",
-    "level_note": "Content is compared as opaque per-section tokens (digest of the Debug rendering with derived offsets projected away); the payload bytes themselves "
-                  "are not modelled. Stage A is a statement about the model; only stages C+D bind the code. Chunked (MD21, Legion+) files are not written by "
-                  "M2Model::write and are outside this check. Legacy .anim parsing in the crate is a placeholder, reported as a known finding.",
+    "level_text": "TLC decides everything except payload bytes. Stage A (MC_M2Layout): the writers of wow-m2 (M2Model::write, SkinG::write, AnimFile::write) are one "
+                  "running-offset state machine (WriteHeader, WriteEmptyRun, WriteSection(s), RelocateTail(s), Finish, Parse, Rewrite, Convert(v)); for every subset of the "
+                  "modelled populated sections x 5 versions x 3 file kinds TLC checks: tracked cursor = bytes emitted, announced (count,offset) regions inside the file, pairwise "
+                  "disjoint and equal to what was emitted, parse(write(x)) = x, byte-stable rewrite, Convert(v,v) = id, Convert(a,b) keeps Representable(a,b); ASSUMEs relate "
+                  "the field-sum record sizes to the writer's constants (animation 32|52, bone 108|112|88, track 28|20, header 324|304), require the multi-step conversion path "
+                  "of every version pair to end in the target through adjacent steps, and require reader and writer to agree on derived counts (MAOF bone count, embedded-view "
+                  "batch count). Stage B (Gen_M2Layout): TLC enumerates the shape space (20 cardinality dimensions {0,1,3}, key frames on/off, float class, string lengths "
+                  "{0,1,260,261,1024} for model and texture names, 5 versions; skin layouts x array cardinalities; anim format x sections x bones x data) as deterministic slices "
+                  "+ seeded draws and emits with each shape the header positions and element sizes computed from the spec. Stage D (Trace_M2Layout): on the events recorded from "
+                  "the real crate TLC decides per-section token equality Write-input vs Parse-output, byte equality of the rewrite, identity of (v,v) conversions (tokens and "
+                  "bytes), preservation of the cross-version token of every Representable(a,b) section in memory and after write+parse for BOTH M2Converter::convert and "
+                  "M2Model::convert on all 25 version pairs, resulting version = end of the spec's conversion path, skin/anim conversions, and - by integer arithmetic on the "
+                  "(count, offset, element size) triples an independent walker read from the bytes - that the announced arrays lie inside the file and are pairwise disjoint.",
+    "level_note": "Observed only, as opaque tokens: all payloads (floats, key-frame bytes, names, vertices ...): a token is the digest of the Debug rendering of a section with "
+                  "derived offsets projected away; TLC compares tokens, it does not interpret payload bytes. Stage A is a statement about the model; stages C+D bind the code. "
+                  "Assumptions: objects are built in the canonical in-memory form a parse yields; chunked MD21 (Legion+) is not writable by the crate (M2Model::write emits MD20 "
+                  "only) and is outside the check; element sizes of records the repo docs do not lay out come from the crate's doc comments and feed only the diagnostic "
+                  "contiguity/order DRIFT lines; legacy .anim parsing is a placeholder in the crate (known finding). Samples, not proofs, over class members.",
     "technique": "TLA+ layout state machine model-checked with TLC; TLC-generated shapes replayed on wow-m2; TLC trace validation of per-section tokens and array layout",
     "design_ref": "DESIGN.md section 5, C13-C18 recipe and the C13 paragraph",
     "crates": ["c13"],
@@ -98,7 +103,7 @@ def run(ctx, cases_override=None, only=None):
             r = json.loads(line)
             kinds[r["ev"]] = kinds.get(r["ev"], 0) + 1
             if r["ev"] == "Reset":
-                shapes.add(json.dumps([r["fmt"], r["ver"], r["kf"], r["floats"], r["shape"]], sort_keys=True))
+                shapes.add(json.dumps([r["fmt"], r["ver"], r["kf"], r["floats"], r["shape"], r.get("namelen", -1), r.get("texlen", -1)], sort_keys=True))
             if kinds[r["ev"]] <= 1:
                 s = dict(r)
                 for k in ("secs", "psecs"):
@@ -115,8 +120,9 @@ def run(ctx, cases_override=None, only=None):
         "cases_generated_by_tlc": ncases,
         "evaluations": res["events"] - res["traces"],
         "distinct_nontrivial": nontrivial,
-        "rule": "a case is one (format, version, key-frame switch, float switch, cardinality vector); non-trivial = at least one populated section; "
-                "every case is written, walked, parsed, rewritten and (M2) converted to all 5 versions",
+        "rule": "counted from the Reset events of the trace actually validated: distinct (format, version, key-frame switch, float class, cardinality vector / anim shape, "
+                "name length, texture-name length) tuples with at least one populated section (a non-zero cardinality; for anim a non-zero section/bone count or data); "
+                "every case is written, walked, parsed, rewritten and converted (M2: to all 5 versions through both public APIs; skin: 4 targets; anim: 2)",
         "exhaustive": False,
         "rejected_pairs": len(bad),
     }
